@@ -5,7 +5,7 @@ The property itself, executable: for one evaluation of a function of a/complex.h
 returned value is the principal value of the mathematical function to within  K * eps * max(1, cond) * |exact|
 (normwise: modulus of the complex error), where cond is the condition number of the function at the point.
 
-stdin : one line per evaluation   <real 4|8> <K> <fn> <args as hex binary64> : <outputs as hex binary64 | nan>
+stdin : one line per evaluation   <real 4|8|16> <K> <fn> <args as hex binary64> : <outputs as hex binary64 | nan>
 stdout: one line per evaluation   ok <err/tol>  |  FAIL <err in units of eps*|exact|> <cond> <exact re> <exact im>
                                   |  skip <reason>
 On a branch cut (all cuts of these functions lie on the axes) either one-sided limit is accepted: the reference is
@@ -177,10 +177,12 @@ def refs(fn, a):
 
 
 def judge(real, K, fn, a, o):
-    eps = mp.mpf(2) ** (-52 if real == 8 else -23)
-    big = mp.mpf(2) ** (1023 if real == 8 else 127)
-    tiny = mp.mpf(2) ** (-1074 if real == 8 else -149)
-    small = mp.mpf(2) ** (-1022 if real == 8 else -126)
+    # real == 16: x87 extended precision (64-bit mantissa); arguments and the printed hi/lo pairs are binary64 values, so the
+    # range limits of binary64 are kept for the skip rules
+    eps = mp.mpf(2) ** {8: -52, 4: -23, 16: -63}[real]
+    big = mp.mpf(2) ** (127 if real == 4 else 1023)
+    tiny = mp.mpf(2) ** (-149 if real == 4 else -1074)
+    small = mp.mpf(2) ** (-126 if real == 4 else -1022)
     try:
         cands = refs(fn, a)
     except (ZeroDivisionError, ValueError, OverflowError):
@@ -220,6 +222,8 @@ def main():
             real, K, fn = int(t[0]), mp.mpf(t[1]), t[2]
             a = [val(h) for h in t[3:k]]
             o = [val(h) for h in t[k + 1:]]
+            if real == 16:          # hi/lo pairs
+                o = [o[i] + o[i + 1] for i in range(0, len(o) - 1, 2)]
             if any(not mp.isfinite(v) for v in a):
                 print("skip nonfinite-argument")
                 continue
